@@ -4,12 +4,13 @@
 Outcome classes shared by every modelled unit.  `Abort.assert` is the C++ `ASSERT(...)` /
 `UNREACHABLE()` (a deliberate `abort()`, made observable by the `TEAKRA_VERIF` hook in
 `crash.h`), `Abort.unimpl` is `UnimplementedException`, `Abort.oob` is an access outside the
-0x80000-byte DSP memory reported by the memory-observer hook.
+0x80000-byte DSP memory reported by the memory-observer hook, `Abort.hang` is a loop of the C++
+that does not end within the stated fuel (used by the DMA model, see `Proofs/C13.lean`).
 -/
 namespace Teakra
 
 inductive Abort where
-  | unimpl | assert | oob
+  | unimpl | assert | oob | hang
   deriving DecidableEq, Repr, Inhabited
 
 instance : ToString Abort where
@@ -17,6 +18,7 @@ instance : ToString Abort where
     | .unimpl => "unimpl"
     | .assert => "assert"
     | .oob => "oob"
+    | .hang => "hang"
 
 /-- Result of an operation that can end in one of the documented abort classes. -/
 abbrev R := Except Abort
